@@ -566,15 +566,22 @@ PRIORITY = ['merge_crash', 'merge_resolve_crash', 'value_of_value_crash', 'merge
 class C29(Prop):
     id = 'C29'
     title = 'Associate resolution and merging preserve program behaviour'
-    model_modules = ['LokiModel.C29.Model', 'LokiModel.C29.Codec']
+    model_modules = ['LokiModel.C29.Model', 'LokiModel.C29.Codec', 'LokiModel.C29.ExprSim']
     props_module = 'LokiModel.Props.C29'
     findings_module = 'LokiModel.Findings.C29'
     driver = 'Drivers/C29.lean'
-    theorems = ['resolve_sound_partial', 'merge_sound_partial']
+    theorems = ['resolve_sound_partial', 'resolve_condition_sound']
     design_ref = 'DESIGN.md 4.F C29'
     level = 'proof'
-    level_text = ''
-    level_note = ''
+    level_text = ('proved (unbounded): the substitution theorem for the names of one ASSOCIATE block with whole-variable and element '
+                  'selectors (resolve_sound_partial: every covered expression has the same value in the block and after resolution, '
+                  'under the state relation Sim whose element clause is the forced precondition "selector subscripts still have '
+                  'their entry value"). NOT proved: the lifting to statements / whole blocks, section and value selectors, merging '
+                  '(no theorem). Those are covered by correspondence (real transformation = Lean model incl. class flags) and by '
+                  'the direct oracle (original vs really transformed program, Python interpreter + gfortran).')
+    level_note = ('trusted: FIR semantics (Sem.lean) as reference; the model is written bottom-up (substitute block by block from the '
+                  'innermost outwards), equality with the scope-lookup + recursion of the real mapper is checked by correspondence only; '
+                  'derived-type components (max_parents) are outside FIR.')
     technique = ('Lean 4 theorems about a hand-written model of the transformation and the shared FIR semantics + '
                  'correspondence of the model with the real transformation + direct oracle (original vs transformed program)')
     rule = ('programs from harness.fir.gen_program biased to ASSOCIATE (weights assoc 30-45, nested blocks, selectors of all '
@@ -582,7 +589,8 @@ class C29(Prop):
             'non-trivial = the program contains an ASSOCIATE block that the mode changes; distinct by request line')
     trusted_base = ['harness/fir.py emitter, exporter and reference interpreter (three-way self-test against Lean and gfortran)',
                     'Loki FP frontend (the transformation is applied to what the frontend builds from the emitted text)']
-    assumptions = []
+    assumptions = ['the ASSOCIATE names of a block are not subscripted unless bound to a whole variable (covE)',
+                   'states related by Sim: no associations outside the block, element-selector subscripts unchanged since entry']
     extra_obligations = ['class-flags: python classifier = Lean C29.flags on every case']
 
     TH_GFORTRAN = int(os.environ.get('C29_GFORTRAN', '1'))
@@ -605,6 +613,8 @@ class C29(Prop):
             if not any(_h(s) == 'assoc' for u in prog[2:] for s in fir.iter_stmts(u[4])):
                 continue
             inputs = fir.gen_inputs(r, prog, 2 if tier == 'quick' else 3)
+            if transform_real(prog, 'resolve', 0)[:2] == ('error', 'frontend'):
+                continue        # a selector the FP frontend cannot digest (notes/FIR.md L2): C01's business, not C29's
             q = r.random()
             if q < 0.45:
                 mode, sd = 'resolve', 0
